@@ -99,11 +99,11 @@ theorem spawnLoop_members (g : Genome W) (hw : WFT g) (hm : g.modules = []) (n :
           have hd' := C06.duplicate_exact g count hrefs
           rw [hd] at hd'
           cases hd'
-          have hwd : WFT ({ g with id := count } : Genome W) := (SameSkel.wft (g := g) ⟨rfl, rfl, rfl⟩ hw.wf.traitRefs hw)
+          have hwd : WFT ({ g with id := count } : Genome W) := (SameSkel.wft (g := g) ⟨rfl, rfl, rfl, rfl⟩ hw.wf.traitRefs hw)
           obtain ⟨s1, r1⟩ := mutateLinkWeights_skel _ d' _ _ _ _ _ hmut hwd.wf.traitRefs
           intro x hx
           rcases List.mem_cons.mp hx with rfl | hx'
-          · have s0 : SameSkel g ({ g with id := count } : Genome W) := ⟨rfl, rfl, rfl⟩
+          · have s0 : SameSkel g ({ g with id := count } : Genome W) := ⟨rfl, rfl, rfl, rfl⟩
             exact ⟨s1.wft r1 hwd, s0.trans s1⟩
           · exact ih _ _ _ _ _ hrest x hx'
 
